@@ -40,7 +40,16 @@ pub fn gen_fastpath_pdu(ctx: &mut Ctx, max_total: usize, want_bitmap: bool) -> (
     let mut updates = Wr::new();
     let mut rects: Vec<Rect> = Vec::new();
     let nupd = if want_bitmap { 1 + ctx.choose("n_updates", 8) as usize } else if ctx.chance("many_updates", 1, 16) { 9 + ctx.choose("n_updates_many", 40) as usize } else { ctx.choose("n_updates", 9) as usize };
-    let mut room = max_total;
+    // a flood of empty updates in front of everything else (they are 3 bytes each)
+    if !want_bitmap && max_total > 9000 && ctx.chance("flood_of_empty_updates", 1, 6) {
+        let n = 2000 + ctx.choose("flood_n", 700) as usize;
+        for i in 0..n {
+            let code = if i % 2 == 0 { 0x3 } else { 0x5 };
+            updates.append(&build::fp_update(code, &Wr::new()));
+        }
+        ctx.probe("flood_of_empty_updates");
+    }
+    let mut room = max_total.saturating_sub(updates.len());
     for u in 0..nupd {
         if room < 8 {
             break;
@@ -142,7 +151,7 @@ pub fn run(env: &mut Env) -> Outcome {
     for k in 0..npdu {
         let (updates, rects, long_form) = {
             let mut ctx = ctxrc.borrow_mut();
-            let max_total = match ctx.choose("pdu_size_c", 5) { 0 | 1 => 400, 2 => 4000, 3 => 32764, _ => 1 + ctx.choose("pdu_size", 32764) as usize };
+            let max_total = match ctx.choose("pdu_size_c", 6) { 0 | 1 => 400, 2 => 4000, 3 => 32764, 4 => *ctx.pick("pdu_size_b", &[16381usize, 16384, 16387, 16390, 8192, 24576]), _ => 1 + ctx.choose("pdu_size", 32764) as usize };
             let (u, r) = gen_fastpath_pdu(&mut ctx, max_total, false);
             let long_form = ctx.chance("fp_long", 1, 3);
             (u, r, long_form)
